@@ -54,21 +54,29 @@ func run(c *lib.Ctx) error {
 	if os.Getenv("C27_ONLY") == "V" { // development switch: races only
 		return judgeRaces(c, dir, runRaces(c))
 	}
-	ns := c.Pick(2, 3)
-	crash := c.Pick(1, 0)
+	type mc struct{ ns, nd, crash int }
+	safety := []mc{{2, 3, 0}}
+	live := mc{2, 2, 0}
+	if c.Thorough() {
+		safety = []mc{{3, 3, 0}, {2, 3, 1}}
+		live = mc{2, 3, 1}
+	}
+	c.Set("bounds", map[string]any{"safety(NS,ND,crashes)": safety, "liveness(NS,ND,crashes)": live, "K": 2, "G": "NS=2 ND=3 K=2"})
 	jobs := []*tlcJob{
-		{name: fmt.Sprintf("MCActivation safety NS=%d ND=3 K=2 crash<=%d", ns, crash), run: lib.TLCRun{Dir: dir, Module: "MCActivation", Workers: c.Pick(3, 8), HeapGB: c.Pick(4, 12), Timeout: 13 * time.Minute,
-			Files: map[string][]byte{"MCActivation.cfg": mcCfg(ns, 3, 2, crash, false, "Spec", "INVARIANT TypeOK EmitM")}}},
-		{name: "MCActivation liveness NS=2 ND=3 K=2 crash<=1", run: lib.TLCRun{Dir: dir, Module: "MCActivation", Workers: 2, HeapGB: 4, Timeout: 13 * time.Minute,
-			Files: map[string][]byte{"MCActivation.cfg": mcCfg(2, c.Pick(2, 3), 2, c.Pick(0, 1), false, "SpecLive", "PROPERTY Termination")}}},
 		{name: "MCActivation G first violations + terminal behaviours", run: lib.TLCRun{Dir: dir, Module: "MCActivation", Workers: 1, HeapGB: 4, Timeout: 13 * time.Minute,
 			Files: map[string][]byte{"MCActivation.cfg": mcCfg(2, 3, 2, 0, true, "SpecG", "VIEW View", "CONSTRAINT StopAtViolation", "INVARIANT TypeOK EmitG EmitTerm")}}},
 		{name: "MCActivation G deep counterexamples", run: lib.TLCRun{Dir: dir, Module: "MCActivation", Workers: 1, HeapGB: 4, Timeout: 13 * time.Minute,
 			Files: map[string][]byte{"MCActivation.cfg": mcCfg(2, 3, 2, 0, true, "SpecG", "VIEW View", "CONSTRAINT StopAtDeep", "INVARIANT TypeOK EmitDeep")}}},
+		{name: fmt.Sprintf("MCActivation liveness NS=%d ND=%d K=2 crash<=%d", live.ns, live.nd, live.crash), run: lib.TLCRun{Dir: dir, Module: "MCActivation", Workers: 2, HeapGB: 4, Timeout: 13 * time.Minute,
+			Files: map[string][]byte{"MCActivation.cfg": mcCfg(live.ns, live.nd, 2, live.crash, false, "SpecLive", "PROPERTY Termination")}}},
 	}
-	if c.Thorough() {
-		jobs = append(jobs, &tlcJob{name: "MCActivation safety NS=2 ND=3 K=2 crash<=1", run: lib.TLCRun{Dir: dir, Module: "MCActivation", Workers: 2, HeapGB: 4, Timeout: 13 * time.Minute,
-			Files: map[string][]byte{"MCActivation.cfg": mcCfg(2, 3, 2, 1, false, "Spec", "INVARIANT TypeOK EmitM")}}})
+	for i, m := range safety {
+		w := 2
+		if i == 0 && c.Thorough() {
+			w = 8
+		}
+		jobs = append(jobs, &tlcJob{name: fmt.Sprintf("MCActivation safety NS=%d ND=%d K=2 crash<=%d", m.ns, m.nd, m.crash), run: lib.TLCRun{Dir: dir, Module: "MCActivation", Workers: w, HeapGB: c.Pick(4, 12), Timeout: 13 * time.Minute,
+			Files: map[string][]byte{"MCActivation.cfg": mcCfg(m.ns, m.nd, 2, m.crash, false, "Spec", "INVARIANT TypeOK EmitM")}}})
 	}
 	var wg sync.WaitGroup
 	for _, j := range jobs {
@@ -78,8 +86,11 @@ func run(c *lib.Ctx) error {
 			j.res, j.err = c.TLC(j.name, j.run)
 		}(j)
 	}
-	// V runs while TLC works (the races only record; they are judged afterwards)
+	// V runs while TLC works: the races are recorded first (they use the real spawn timeout, the G
+	// replays below a practically infinite one: the two never overlap), then judged in the background
 	races := runRaces(c)
+	vdone := make(chan error, 1)
+	go func() { vdone <- judgeRaces(c, dir, races) }()
 	wg.Wait()
 	for _, j := range jobs {
 		if j.err != nil {
@@ -122,7 +133,7 @@ func run(c *lib.Ctx) error {
 
 	// ---- G
 	var behs []*behaviour
-	for _, j := range jobs[2:4] {
+	for _, j := range jobs[0:2] {
 		seen := map[string]bool{}
 		for _, l := range j.res.PrintedStrings() {
 			if seen[l] {
@@ -140,11 +151,12 @@ func run(c *lib.Ctx) error {
 		}
 	}
 	if err := replayAll(c, behs); err != nil {
+		<-vdone
 		return err
 	}
 
 	// ---- V
-	if err := judgeRaces(c, dir, races); err != nil {
+	if err := <-vdone; err != nil {
 		return err
 	}
 	c.Assume("TLC trusted; in-process: shells and daemons are goroutines of one process running the real daemon.Activate / daemon.Serve (startProcess overridden as in the repository's tests); the bbolt file lock is per open file description, so it conflicts inside one process as across processes; a crashed daemon is a listener closed with unlink-on-close disabled; connections accepted but never served are closed by finalizers (runtime.GC) where a real process exit would close them; the K retries of the model stand for the time-bounded wait loop (GiveUp is forced by a zero deadline while every other actor is held); statuses sockfileOtherError/daemonOutdated and signals are outside the model")
